@@ -157,6 +157,10 @@ def process_shard(spec, gen_root, known):
                                                   "prelude", "src", "desc")}
                 return rec
             rec["known"].append({"what": e["what"], "args": args, "signature": e.get("signature", {})})
+            if e.get("predicate", "True").strip() == "True":
+                # the listed finding covers this whole shard: nothing is left to explore behind it
+                rec["status"] = "known_only"
+                return rec
             cur = with_extra_pre(cur, ["not (%s)" % e["predicate"]])
         rec["status"] = "inconclusive"
         rec["reason"] = "more than %d known-finding exclusion rounds" % MAX_KNOWN_ROUNDS
@@ -183,6 +187,10 @@ def main(pid, tier, only=None):
     known = load_known()
     os.makedirs(EVID, exist_ok=True)
     os.makedirs(os.path.join(EVID, "replay"), exist_ok=True)
+    if not only:
+        for old in os.listdir(os.path.join(EVID, "replay")):
+            if old.startswith(pid + "-"):
+                os.remove(os.path.join(EVID, "replay", old))
     os.makedirs(os.path.join(ROOT, ".gen"), exist_ok=True)
     gen_root = tempfile.mkdtemp(prefix="gen_", dir=os.path.join(ROOT, ".gen"))
     pre_checks = []
@@ -239,6 +247,7 @@ def main(pid, tier, only=None):
                 print("HARNESS-ERROR property=%s shard=%s %s" % (pid, r["id"], r.get("reason", "")[:600]))
                 status_codes.add(3)
         confirmed = [r for r in recs if r["status"] == "confirmed"]
+        known_only = [r for r in recs if r["status"] == "known_only"]
         samples = []
         for r in recs[:]:
             if r.get("witness") is not None and len(samples) < 6:
@@ -260,6 +269,7 @@ def main(pid, tier, only=None):
                            "(CONFIRMED over all paths within the pre: bounds).",
             "shards_total": len(recs),
             "shards_confirmed": len(confirmed),
+            "shards_known_finding_only": len(known_only),
             "shards_inconclusive": sum(1 for r in recs if r["status"] == "inconclusive"),
             "shards_violating": violations,
             "shards_with_known_findings": sum(1 for r in recs if r["known"]),
